@@ -34,7 +34,8 @@ SCTP_CLONES = {"quick": ['inbound_req_basic', 'conn_closed_by_node', 'connect_re
 KINDS = ["inbound_req_basic", "inbound_req_threading", "inbound_req_threading_none", "outbound_req", "dwr_from_peer",
          "dwr_from_node", "rejected_requests", "conn_closed_by_peer", "conn_closed_by_node", "connect_refused",
          "connect_failed_async", "cea_rejected", "cer_rejected_no_common_app", "unknown_peer", "ce_timeout",
-         "refused_while_stopping", "late_and_unknown_answers", "conn_with_request_closed", "outbound_req_timeout"]
+         "refused_while_stopping", "late_and_unknown_answers", "conn_with_request_closed", "outbound_req_timeout",
+         "conn_closed_mid_frame"]
 PEER = "peer1.verif.example"
 
 
@@ -241,6 +242,18 @@ class Kind:
             for i in range(n):
                 sp = self.connect(i)
                 sp.close()
+                h.settle()
+        elif kind == "conn_closed_mid_frame":
+            for i in range(n):
+                sp = self.connect(i)
+                hbh, e2e = self.ids()
+                frame = M.ccr(PEER, REALM, REALM, app=4, hbh=hbh, e2e=e2e)
+                sp.send(frame[:(7, 20, 57, len(frame) - 1)[i % 4]])     # the connection ends inside a frame
+                h.settle()
+                if i % 2:
+                    sp.close()
+                else:
+                    sp.reset_conn()
                 h.settle()
         elif kind == "conn_with_request_closed":
             for i in range(n):
